@@ -395,7 +395,8 @@ def known_functions():
         with open(path) as fh:
             data = json.load(fh)
         _KNOWN = {k: set(v) for k, v in data['functions'].items()}
-        _KNOWN_EXTRA.update({'digests': data.get('digests', {}), 'attrs': data.get('attrs', {}), 'constants': data.get('constants', {}), 'shapes': data.get('shapes', {})})
+        _KNOWN_EXTRA.update({'digests': data.get('digests', {}), 'attrs': data.get('attrs', {}), 'constants': data.get('constants', {}), 'shapes': data.get('shapes', {}),
+                             'params': data.get('params', {})})
     return _KNOWN
 
 
@@ -667,17 +668,19 @@ class _InlineNewHelpers(_InlineMethods):
     """expand, in every function of a module, the calls of same-module functions and same-class methods that are not in the table of known
     functions (extract-function refactorings)"""
 
-    def __init__(self, tree, known, foreign=None, modname='', is_pkg=False, known_digests=None):
+    def __init__(self, tree, known, foreign=None, modname='', is_pkg=False, known_digests=None, known_params=None):
         _InlineMethods.__init__(self, tree)
         self.known = known
         # hosts that HAD a nested function which is gone now: only there a new helper can be a lifted closure
         now = function_table(tree)
         self.lost_nested = {}
+        self.lost_params = {}
         for q in (known_digests or {}):
             if q.count('.') >= 1 and q not in now:
                 hostq = q.rsplit('.', 1)[0]
                 if hostq in now and hostq in known_digests:
                     self.lost_nested.setdefault(id(now[hostq]), []).append(q.rsplit('.', 1)[1])
+                    self.lost_params.setdefault(id(now[hostq]), []).append((known_params or {}).get(q))
         self.hcount = [0]
         self.foreign = foreign or {}
         self.modname = modname
@@ -819,16 +822,28 @@ class _InlineNewHelpers(_InlineMethods):
                 continue
             closure = {}
             gstores = _stores(G)
+            # the parameters the function had when it was nested (known from the pinned tree): whatever it takes beyond them was captured
+            was = [pl for pl in self.lost_params.get(id(G), []) if pl is not None and len(pl) <= len(plain + kwonly)]
+            was = sorted(was, key=lambda pl: -len(pl))
+            own = None
+            for pl in was:
+                if len(plain + kwonly) - len(pl) == sum(1 for p_, vals in passed.items() if vals and all(isinstance(v, ast.Name) for v in vals) and len({v.id for v in vals}) == 1 and p_ not in stored) or True:
+                    own = len(pl)
+                    break
             for p_, vals in passed.items():
                 if vals and all(isinstance(v, ast.Name) for v in vals) and len({v.id for v in vals}) == 1 and p_ not in stored:
                     a = vals[0].id
                     if a != p_ and a in stored:
                         continue
-                    if gstores.get(a, 0) > 1:
+                    if own is None and gstores.get(a, 0) > 1:
                         continue        # a name that changes in the host (a loop variable, a running index) is a real argument
                     closure[p_] = a
-            if not closure and recv_m is None:
-                continue
+            if own is not None and len(plain + kwonly) - len(closure) < own:
+                # more candidates than were captured: those that are rebound in the host are the real arguments
+                for p_ in sorted(closure, key=lambda k: -gstores.get(closure[k], 0)):
+                    if len(plain + kwonly) - len(closure) >= own:
+                        break
+                    del closure[p_]
             mapping = dict(closure)
             if recv_m is not None:
                 grecv = G.args.args[0].arg
@@ -1887,7 +1902,7 @@ class Module:
             _localise_new_constants(raw, set(kc))
         self.tree = ast.fix_missing_locations(_Desugar().visit(raw))
         known = known_functions().get(relpath)
-        if known is not None and _InlineNewHelpers(self.tree, known, foreign=foreign, modname=name, is_pkg=relpath.endswith('__init__.py'), known_digests=kd).run():
+        if known is not None and _InlineNewHelpers(self.tree, known, foreign=foreign, modname=name, is_pkg=relpath.endswith('__init__.py'), known_digests=kd, known_params=_KNOWN_EXTRA.get('params', {}).get(relpath)).run():
             ast.fix_missing_locations(self.tree)
         if any(isinstance(n, ast.ClassDef) and any(n.name == c for (c, _m) in INLINE_HOSTS) for n in self.tree.body):
             _InlineMethods(self.tree).run()
